@@ -84,6 +84,10 @@ def histories(files, tier):
                 out.append(evs + [(k, f)])                               # duplicated late
                 out.append(evs + [("modified", f)])                      # late modified
                 out.append(evs[:i] + [("tmpmove", f)] + evs[i + 1:])    # finalizing rename instead of creation
+            for (k, f) in evs:
+                if classify(f) in ("md", "prop"):
+                    out.append(evs + [("rewrite_modified", f)])              # in-place update, then its modified event
+                    out.append(evs + [("rewrite_modified", f), ("modified", f)])
             out.append(evs + [("created", "chA/2014-03-09T12-30-30/rf@1394368299.000.h5")])  # stale: file never existed
             out.append([("deleted", evs[-1][1])] + evs)
     return out
@@ -94,9 +98,10 @@ class Interceptor:
 
     NAMES = [(os, "rename"), (os, "makedirs"), (os, "link"), (os, "remove"), (os, "rmdir"), (shutil, "copy2"), (shutil, "move")]
 
-    def __init__(self, observe, crash_at=None):
+    def __init__(self, observe, crash_at=None, fault_at=None):
         self.observe = observe
         self.crash_at = crash_at
+        self.fault_at = fault_at
         self.n = 0
         self.saved = {}
         self.in_wrapped = 0
@@ -108,6 +113,9 @@ class Interceptor:
         self.n += 1
         if self.crash_at is not None and i == self.crash_at:
             raise CrashNow(what)
+        if self.fault_at is not None and i == self.fault_at:
+            self.observe(i, what)
+            raise OSError(5, "injected I/O error before " + what)
         self.observe(i, what)
 
     def __enter__(self):
@@ -172,6 +180,7 @@ def run_job(job):
                 crash_points = [None]
                 if crash:
                     crash_points = [None] + list(range(0, 40))
+                fault_mode = crash == "fault"
                 for cp in crash_points:
                     run_no += 1
                     src = os.path.join(root, "src%d" % run_no)
@@ -179,7 +188,8 @@ def run_job(job):
                     shutil.copytree(master, src)
                     os.makedirs(dest)
                     filecmp.clear_cache()
-                    case = {"method": method, "windowed": windowed, "history": hist, "handler_order": list(order), "crash_at": cp, "seed": seed}
+                    case = {"method": method, "windowed": windowed, "history": hist, "handler_order": list(order), "crash_at": cp, "seed": seed,
+                            "mode": crash if crash else None}
                     errs = []
 
                     def observe(i, what, _src=src, _dest=dest, _errs=errs):
@@ -189,7 +199,7 @@ def run_job(job):
                                 if f.startswith("tmp."):
                                     continue
                                 rel = os.path.relpath(os.path.join(r_, f), _dest)
-                                if rel in master_sha and sha(os.path.join(r_, f)) != master_sha[rel] and len(_errs) < 3:
+                                if rel in master_sha and sha(os.path.join(r_, f)) not in (cur_sha.get(rel), alt_sha.get(rel), master_sha[rel]) and len(_errs) < 3:
                                     _errs.append(({"class": "incomplete_file_under_final_name"}, "at boundary %s (%s): %s" % (i, what, rel)))
                         # (2) every RF file has an intact copy in the source or under the destination (tmp. staging counts)
                         for rel in rf_files:
@@ -204,14 +214,32 @@ def run_job(job):
                     import contextlib
                     import io
 
-                    with contextlib.redirect_stdout(io.StringIO()), Interceptor(observe, crash_at=cp) as icp:
+                    cur_sha = dict(master_sha)
+                    alt_sha = {}
+                    with contextlib.redirect_stdout(io.StringIO()), contextlib.redirect_stderr(io.StringIO()), \
+                            Interceptor(observe, crash_at=None if fault_mode else cp, fault_at=cp if fault_mode else None) as icp:
                         # handlers capture shutil.copy2/move at construction: rebuild inside the interception
                         mir = mirror_mod.DigitalRFMirror(src, dest, method=method, starttime=start, endtime=end)
                         handlers = [mir.event_handlers[i] for i in order if i < len(mir.event_handlers)]
                         try:
                             for kind, rel in hist:
                                 p = os.path.join(src, rel)
-                                if kind == "created":
+                                if kind == "rewrite_modified":
+                                    # the writer updates the file in place: same size, same modification second
+                                    if not os.path.exists(p):
+                                        continue
+                                    st_ = os.stat(p)
+                                    with open(p, "r+b") as fh:
+                                        fh.seek(st_.st_size // 2)
+                                        byte = fh.read(1)
+                                        fh.seek(st_.st_size // 2)
+                                        fh.write(bytes([byte[0] ^ 0x5A]))
+                                    # same whole second, different sub-second time stamp (as a real in-place update)
+                                    os.utime(p, ns=(st_.st_atime_ns, st_.st_mtime_ns // 10**9 * 10**9 + 250000000 + len(alt_sha) * 1000))
+                                    alt_sha[rel] = cur_sha[rel]
+                                    cur_sha[rel] = sha(p)
+                                    ev = FileModifiedEvent(p)
+                                elif kind == "created":
                                     ev = FileCreatedEvent(p)
                                 elif kind == "modified":
                                     ev = FileModifiedEvent(p)
@@ -228,13 +256,13 @@ def run_job(job):
                             errs.append(({"class": "handler_raised", "exc": type(e).__name__}, repr(e)))
                         nops = icp.n
                     part["evaluations"] += 1
-                    if cp is not None and not crashed:
+                    if cp is not None and ((not fault_mode and not crashed) or (fault_mode and cp >= nops)):
                         core.rm(src)
                         core.rm(dest)
-                        break  # crash point beyond the last operation: this history is covered
+                        break  # crash/fault point beyond the last operation: this history is covered
                     observe("end", "after history")
-                    if not crashed:
-                        errs += end_oracle(method, src, dest, files, selected, master_sha, hist, rf_files, md_files)
+                    if not crashed and not (fault_mode and cp is not None):
+                        errs += end_oracle(method, src, dest, files, selected, cur_sha, hist, rf_files, md_files)
                         part["traces"] += 1
                     part["outcomes"]["%s ops=%d%s" % (method, nops // 5 * 5, " crash" if crashed else "")] += 1
                     for key, detail in errs:
@@ -256,7 +284,7 @@ def end_oracle(method, src, dest, files, selected, master_sha, hist, rf_files, m
     import digital_rf as drf
 
     errs = []
-    reported = {rel for kind, rel in hist if kind in ("created", "modified", "tmpmove")}
+    reported = {rel for kind, rel in hist if kind in ("created", "modified", "tmpmove", "rewrite_modified")}
     dest_files = {}
     for r_, d_, fs in os.walk(dest):
         for f in fs:
@@ -293,7 +321,7 @@ def end_oracle(method, src, dest, files, selected, master_sha, hist, rf_files, m
         for rel in files:
             if not os.path.exists(os.path.join(src, rel)) or sha(os.path.join(src, rel)) != master_sha[rel]:
                 errs.append(({"class": "source_changed", "method": method}, rel))
-    if not errs and all(f in reported for f in selected):
+    if not errs and all(f in reported for f in selected) and not any(k == "rewrite_modified" for k, _ in hist):
         # the destination is a readable data set with the same data
         try:
             rd = drf.DigitalRFReader(dest)
@@ -374,8 +402,10 @@ def jobs(tier):
     if tier != "quick":
         crash_h += [list(p) for p in list(itertools.permutations(base))[::37]]
     for h in crash_h:
-        out.append(("move", False, [h], [tuple(range(3))], True))
-        out.append(("copy", False, [h], [tuple(range(2))], True))
+        out.append(("move", False, [h], [tuple(range(3))], "crash"))
+        out.append(("copy", False, [h], [tuple(range(2))], "crash"))
+        out.append(("move", False, [h], [tuple(range(3))], "fault"))
+        out.append(("link", False, [h], [tuple(range(2))], "fault"))
     return out
 
 
@@ -385,7 +415,7 @@ def replay(case):
     else:
         os.environ["VERIF_SEED"] = str(case.get("seed", 0))
         part = run_job((case["method"], case["windowed"], [[tuple(e) for e in case["history"]]], [tuple(case["handler_order"])],
-                        case["crash_at"] is not None))
+                        case.get("mode") or (case["crash_at"] is not None)))
         return [(v["key"], v["detail"]) for v in part["violations"] if v["case"]["crash_at"] == case["crash_at"]]
     return [(v["key"], v["detail"]) for v in part["violations"]]
 
@@ -399,7 +429,7 @@ def main(tier):
               "finalizing tmp->final move instead of the creation / a stale event / a deletion first) x handler dispatch orders "
               "(watchdog keeps handlers in a set); the real DigitalRFMirror handlers are driven by dispatch(); os.rename, "
               "os.makedirs, os.link, os.remove, os.rmdir, shutil.copy2, shutil.move are intercepted: invariants at every boundary "
-              "and inside every copy; for move (and copy) a crash is injected at every boundary of selected histories; "
+              "and inside every copy; for move (and copy) a crash, and for move/link a one-shot I/O error, is injected at every boundary of selected histories; metadata/properties files are also rewritten in place (same size, same whole mtime second, different sub-second part) followed by their modified event; "
               "plus DigitalRFMirror.start()'s replay of existing files for every method x ignore_existing.")
         % ("every 97th permutation" if tier == "quick" else "every permutation"),
         assumptions=["crash = exception thrown out of the handler at an operation boundary of the mirror (no page-cache loss)",
